@@ -1,13 +1,15 @@
-\* schedules of the as-is model, 2 senders, <=2 chunks
+\* schedules of the as-is model (gate gap only), 2 senders, <=2 chunks
 CONSTANTS
   Senders = {"p1", "p2"}
-  MaxChunks = 2
+  MaxChunks = 3
   Seq0 = 10
   MaxSeq = 100
   RenewMayFail = TRUE
   Gen = TRUE
+  MayAbort = TRUE
+  Dev_ResetSeqOnAbort = FALSE
   Dev_GateGap = TRUE
-  Dev_FailedRenewSeq = TRUE
+  Dev_FailedRenewSeq = FALSE
 INIT Init
 NEXT Next
 INVARIANTS InvEmit
